@@ -717,6 +717,7 @@ def gen_spec(run_seed, tier='quick'):
     nd = ne = 0
     evals = []
     gevals = []
+    est_slot = {}
     if env_ops and rng.random() < 0.4:
         ops.append({'op': 'setenv', 'client': 0,
                     'value': '/nonexistent/pgradd-data'})
@@ -794,6 +795,7 @@ def gen_spec(run_seed, tier='quick'):
                         'from': d[0], 'out': name,
                         'plain': rng.random() < 0.15})
             ests.append(name)
+            est_slot[name] = tgt
         elif k == 'evaluate':
             if evals and rng.random() < 0.3:
                 # the very same observation again, after whatever happened
@@ -832,9 +834,20 @@ def gen_spec(run_seed, tier='quick'):
             other = rng.choice([s for s in sorted(slots) if s != sid])
             ops.append({'op': 'merge', 'client': cid, 'slot': sid,
                         'other': other, 'overwrite': rng.random() < 0.5})
-            # right after a merge: repeat earlier observations
-            for _ in range(rng.randrange(0, 3)):
-                if evals and rng.random() < 0.6:
+            # right after a merge: repeat earlier observations, preferably
+            # those made on the merged-into library
+            mine_e = [(e, v) for (e, v) in evals if est_slot.get(e) == sid]
+            mine_g = [g for g in gevals if g[0] == sid]
+            for _ in range(rng.randrange(0, 4)):
+                if mine_e and rng.random() < 0.6:
+                    e, v = rng.choice(mine_e)
+                    ops.append({'op': 'evaluate', 'client': cid, 'est': e,
+                                'v': dict(v)})
+                elif mine_g and rng.random() < 0.7:
+                    g_sid, gi, v = rng.choice(mine_g)
+                    ops.append({'op': 'group_eval', 'client': cid,
+                                'slot': g_sid, 'gi': gi, 'v': dict(v)})
+                elif evals and rng.random() < 0.6:
                     e, v = rng.choice(evals)
                     ops.append({'op': 'evaluate', 'client': cid, 'est': e,
                                 'v': dict(v)})
